@@ -615,11 +615,18 @@ def _judged(np, ft, pr, op, arrays, prec, step, history, violations, probes, bum
     data32 = a.dtype in (np.float32, np.complex64)
     tol = TOL64 if (prec == 64 and not data32) else TOL32
     shifted = shift[0] != 0 or shift[1] != 0
-    if (abs(shift[0]) > 16 or abs(shift[1]) > 16) and tol != TOL64:
-        # far off-axis at 32 bit: the chirp phase itself (pi*alpha*j^2, j ~ shift)
-        # is no longer representable to the tolerance; not judged
-        bump(probes, "large_shift_32bit_not_judged")
-        return {"out": "skip:large-shift-32bit"}
+    # largest phase (radians) any route has to represent: the chirp-Z kernel
+    # pi*alpha*j^2 with |j| up to n + M + |shift| dominates.  In single precision
+    # the answer cannot be better than eps32 * that phase.
+    cond = max(math.pi / (m * Q[0]) * (m + out[0] + abs(shift[1])) ** 2,
+               math.pi / (n * Q[1]) * (n + out[1] + abs(shift[0])) ** 2)
+    if tol != TOL64:
+        tol = max(tol, 8 * 6e-8 * cond)
+        if tol > 0.05:
+            bump(probes, "ill_conditioned_32bit_not_judged")
+            return {"out": "skip:ill-conditioned-32bit"}
+    elif 8 * 1.2e-16 * cond > tol:
+        tol = 8 * 1.2e-16 * cond
     if abs(shift[0]) > 16 or abs(shift[1]) > 16:
         bump(probes, "large_shift")
 
